@@ -551,6 +551,27 @@ pub fn sweep(thorough: bool, panic_only: bool) -> (u64, Vec<(String, String)>) {
             }
         }
     }
+    // a commodity-less `0` as the amount of a posting that carries an assertion: the assertion is checked like any other (seed C02-k)
+    {
+        let open = "2024/01/01 open\n    A    1000 X\n    W    20.00 Y\n    E\n\n";
+        let cases: [(&str, bool); 6] = [
+            ("2024/01/02 check\n    A    0 = 1000 X\n", true), ("2024/01/02 check\n    A    0 = 1500 X\n", false),
+            ("2024/01/02 check\n    W    0 = 0\n", false), ("2024/01/02 check\n    N    0 = 0\n", true),
+            ("2024/01/02 check\n    A    0 = 0 X\n", false), ("2024/01/02 check\n    A    0 = 0 Y\n", true),
+        ];
+        for (entry, holds) in cases {
+            evaluated += 1;
+            let text = format!("{}{}\n", open, entry);
+            let verdict = match run_real(&text) {
+                Real::Panic => Some("the run panicked".to_owned()),
+                Real::Ok(b) => if holds { None } else { Some(format!("a false assertion on a posting with amount `0` was accepted (balances {:?})", b)) },
+                Real::Err(e) => if holds { Some(format!("a true assertion on a posting with amount `0` was rejected: {}", e.lines().next().unwrap_or(""))) } else { None },
+            };
+            if let Some(v) = verdict.filter(|v| !panic_only || v.contains("panicked")) {
+                if bad.len() < 12 { bad.push((text, v)); }
+            }
+        }
+    }
     (evaluated, bad)
 }
 
